@@ -337,6 +337,33 @@ def run_length_ratio(sx):
     return "ok"
 
 
+def run_multigrading(sx):
+    """a multigraded edge seen from the other end: the divisions in reverse order, each with its own length fraction and
+    count and the reciprocal of its own expansion"""
+    L = _inputs(sx)
+    r = sx.real("ratio", Fraction(1, 10), Fraction(9, 10))
+    c1, c2 = sx.real("c1", Fraction(1, 2), 2), sx.real("c2", Fraction(1, 2), 2)
+    g = Grading(L)
+    g.add_chop(Chop(length_ratio=r, count=3, c2c_expansion=c1))
+    g.add_chop(Chop(length_ratio=1 - r, count=2, c2c_expansion=c2))
+    g.add_chop(Chop(length_ratio=sx.const(1), count=4, total_expansion=c1 * c2))   # ratios are normalised when written
+    sx.reach("ok")
+    spec = g.specification
+    want = [(r, 3, c1 * c1), (1 - r, 2, c2), (1, 4, c1 * c2)]
+    sx.prove(len(spec) == 3 and sx.all([sx.all([sx.close(s_[0], w[0], 1e-12), s_[1] == w[1], sx.close(s_[2], w[2], 1e-12)])
+                                        for s_, w in zip(spec, want)]),
+             "Grading.specification lists the divisions in the order they were added", "C03:multigrading:specification")
+    sx.prove(g.count == 9, "the count of a multigraded edge is the sum of its divisions", "C03:multigrading:count")
+    inv = g.inverted.specification
+    sx.prove(len(inv) == 3 and sx.all([sx.all([sx.close(i_[0], w[0], 1e-12), i_[1] == w[1], sx.close(i_[2] * w[2], 1, 1e-9)])
+                                       for i_, w in zip(inv, reversed(want))]),
+             "Grading.inverted: divisions in reverse order, each keeping its length fraction and count, expansion reciprocal",
+             "C03:multigrading:inverted")
+    sx.prove(len(g.specification) == 3 and sx.close(g.specification[0][2], c1 * c1, 1e-12),
+             "Grading.inverted leaves the original untouched", "C03:multigrading:inverted-pure")
+    return "ok"
+
+
 def jobs(tier, seed):
     js = []
 
@@ -361,4 +388,5 @@ def jobs(tier, seed):
         for pair in ("start+end", "start+total", "end+total"):
             add("run_two_sizes", pair, pair=pair)
     add("run_length_ratio", "grading+length_ratio")
+    add("run_multigrading", "grading|three divisions|inverted")
     return js
